@@ -156,7 +156,56 @@ func watchdog(f func(), d time.Duration) bool {
 	}
 }
 
+// the same points and scalars slices passed again after in-place changes: the result must follow the current contents
+func (d *driver) runMsmReuse(w emitter, k int, c *msmCase) {
+	p := newPrg("msm-reuse", d.seed, k)
+	pts := msmPoints("srs", c.N, p)
+	vals := msmScalars("rnd", c.N, 0, p)
+	scs := toFr(vals, true)
+	cfg := getConf()
+	for step := 0; step < 4; step++ {
+		switch step {
+		case 1:
+			vals[0] = new(big.Int).Add(vals[0], big.NewInt(1))
+			vals[0].Mod(vals[0], modR)
+			scs[0] = frFromBig(vals[0])
+		case 2:
+			pts[len(pts)-1] = cfg.SRS[(k+77)%256]
+		case 3:
+			for i := range vals {
+				vals[i] = big.NewInt(int64(i % 3))
+				scs[i] = frFromBig(vals[i])
+			}
+		}
+		xy := make([][][]int, len(pts))
+		for i := range pts {
+			xy[i] = affXY(&pts[i])
+		}
+		e := ev{"ev": "msm", "k": k, "kind": "api", "n": c.N, "tasks": c.Tasks, "mont": true, "small": 0, "pcls": "reuse", "scls": "reuse",
+			"pts": xy, "scalars": limbsList(vals), "numcpu": runtime.NumCPU(), "finished": true}
+		func() {
+			defer func() {
+				if r := recover(); r != nil {
+					e["panic"] = fmt.Sprint(r)
+				}
+			}()
+			var res banderwagon.Element
+			res.SetIdentity()
+			r, err := res.MultiExp(pts, scs, banderwagon.MultiExpConfig{NbTasks: c.Tasks, ScalarsMont: true})
+			e["err"] = err != nil
+			if err == nil {
+				e["out"] = coords(r)
+			}
+		}()
+		w.emit(e)
+	}
+}
+
 func (d *driver) runMsmCase(w emitter, k int, c *msmCase) {
+	if c.Kind == "reuse" {
+		d.runMsmReuse(w, k, c)
+		return
+	}
 	p := newPrg("msm", d.seed, k)
 	pts := msmPoints(c.Points, c.N, p)
 	vals := msmScalars(c.Scalars, c.N, c.Small, p)
